@@ -2,16 +2,518 @@ import PdeVerif.Model.Grid
 import PdeVerif.Model.Volume
 import PdeVerif.Model.GridCoords
 import PdeVerif.Lemmas.Basic
+import Mathlib.Algebra.BigOperators.Intervals
+import Mathlib.Algebra.BigOperators.Field
+import Mathlib.Algebra.Order.ToIntervalMod
+import Mathlib.Data.Rat.Floor
+import Mathlib.Tactic.Positivity
+import Mathlib.Tactic.NormNum
 /-
 C12 - grid geometry and coordinate transformations are self-consistent.
+Property theorems about `PdeVerif.Grids` (model of pde/grids/{base,cartesian,spherical,
+cylindrical}.py, pde/grids/coordinates/*.py, pde/tools/cuboid.py and of
+`ScalarField.project`).  Every statement holds for an arbitrary ordered field with floor, every
+number of cells, every inner radius, every dimension of a Cartesian grid and every axis subset;
+`pi` is an arbitrary element of the field (all volume statements are linear in it).
 -/
+set_option linter.unusedSectionVars false
 namespace PdeVerif.Grids
 open PdeVerif
 
 section
 variable {K : Type} [Field K] [LinearOrder K] [IsStrictOrderedRing K] [FloorRing K]
 
-theorem dx_def (lo hi : K) (n : Nat) : dx lo hi n = (hi - lo) / n := rfl
+/-! ### 1. discretisation: `dx = (hi - lo)/N`, centres at `lo + (i + 1/2) dx` -/
+
+theorem half_eq : (half : K) = 1 / 2 := by unfold half; push_cast; rfl
+
+/-- **C12** `dx = (x_max - x_min) / N` -/
+theorem dx_def (lo hi : K) (n : ℕ) : dx lo hi n = (hi - lo) / (n : K) := rfl
+
+/-- **C12** the centre of cell `i` lies at `x_min + (i + 1/2) dx` -/
+theorem centres (lo hi : K) (n i : ℕ) :
+    centre lo hi n i = lo + ((i : K) + 1 / 2) * ((hi - lo) / (n : K)) := by
+  unfold centre dx; rw [half_eq]; ring
+
+/-- the whole coordinate array: `N` entries, entry `i` is the centre of cell `i` -/
+theorem centres_list (lo hi : K) (n : ℕ) :
+    (centreList lo hi n).length = n ∧
+      ∀ i (h : i < (centreList lo hi n).length),
+        (centreList lo hi n)[i] = lo + ((i : K) + 1 / 2) * ((hi - lo) / (n : K)) := by
+  refine ⟨by simp [centreList], ?_⟩
+  intro i h
+  simp only [centreList, List.getElem_map, List.getElem_range]
+  exact centres lo hi n i
+
+/-- the faces the volume code uses (`rs ± dr/2`) are the grid lines `lo + i dx` -/
+theorem cellLo_eq_face (lo hi : K) (n i : ℕ) : cellLo lo hi n i = face lo hi n i := by
+  unfold cellLo face centre; rw [half_eq]; ring
+
+theorem cellHi_eq_face (lo hi : K) (n i : ℕ) : cellHi lo hi n i = face lo hi n (i + 1) := by
+  unfold cellHi face centre; rw [half_eq]; push_cast; ring
+
+theorem face_zero (lo hi : K) (n : ℕ) : face lo hi n 0 = lo := by
+  unfold face; simp
+
+theorem face_last (lo hi : K) (n : ℕ) (hn : n ≠ 0) : face lo hi n n = hi := by
+  have : (n : K) ≠ 0 := Nat.cast_ne_zero.mpr hn
+  unfold face dx; field_simp; ring
+
+theorem dx_pos (lo hi : K) (n : ℕ) (h : lo < hi) (hn : n ≠ 0) : 0 < dx lo hi n := by
+  have : (0 : K) < n := Nat.cast_pos.mpr (Nat.pos_of_ne_zero hn)
+  unfold dx; exact div_pos (sub_pos.mpr h) this
+
+/-- the centre lies strictly inside its cell and cells are ordered -/
+theorem centre_in_cell (lo hi : K) (n i : ℕ) (h : lo < hi) (hn : n ≠ 0) :
+    face lo hi n i < centre lo hi n i ∧ centre lo hi n i < face lo hi n (i + 1) := by
+  have hd := dx_pos lo hi n h hn
+  unfold face centre; rw [half_eq]; push_cast
+  constructor <;> nlinarith
+
+/-- every centre lies inside the bounds -/
+theorem centre_in_bounds (lo hi : K) (n i : ℕ) (h : lo < hi) (hi' : i < n) :
+    lo < centre lo hi n i ∧ centre lo hi n i < hi := by
+  have hn : n ≠ 0 := by omega
+  have hd := dx_pos lo hi n h hn
+  have hN : (0 : K) < n := Nat.cast_pos.mpr (Nat.pos_of_ne_zero hn)
+  have e : hi = lo + (n : K) * dx lo hi n := by unfold dx; field_simp; ring
+  have hin : (i : K) + 1 ≤ n := by exact_mod_cast hi'
+  have hi0 : (0 : K) ≤ i := Nat.cast_nonneg i
+  unfold centre; rw [half_eq]
+  constructor
+  · nlinarith
+  · rw [e] at *
+    have : ((i : K) + 1 / 2) * dx lo (lo + ↑n * dx lo hi n) n < ↑n * dx lo hi n := by
+      have e2 : dx lo (lo + ↑n * dx lo hi n) n = dx lo hi n := by
+        unfold dx; field_simp; ring
+      rw [e2]; nlinarith
+    linarith
+
+/-- `UnitGrid` is the Cartesian grid with bounds `(0, N)`: literal `dx = 1`, centres `i + 1/2` -/
+theorem unit_eq_cartesian (n i : ℕ) (hn : n ≠ 0) :
+    (unitDx : K) = dx ((0 : ℕ) : K) (n : K) n ∧ (unitCentre i : K) = centre ((0 : ℕ) : K) (n : K) n i := by
+  have : (n : K) ≠ 0 := Nat.cast_ne_zero.mpr hn
+  unfold unitDx unitCentre centre dx
+  rw [half_eq]
+  push_cast
+  constructor
+  · field_simp; ring
+  · field_simp; ring
+
+/-- `Cuboid` orders reversed bounds -/
+theorem cuboidBounds_eq (lo hi : K) : cuboidBounds lo hi = (min lo hi, max lo hi) := by
+  unfold cuboidBounds
+  simp only [Nat.cast_zero]
+  split_ifs with h
+  · have : hi < lo := by linarith
+    rw [min_eq_right this.le, max_eq_left this.le]; ext <;> simp
+  · have : lo ≤ hi := by linarith
+    rw [min_eq_left this, max_eq_right this]; ext <;> simp
+
+/-! ### 2. cell volumes, their sum, integration and projection -/
+
+theorem sumN_eq_sum (n : ℕ) (f : ℕ → K) : sumN n f = ∑ i ∈ Finset.range n, f i := by
+  induction n with
+  | zero => simp [sumN]
+  | succ n ih => rw [sumN, ih, Finset.sum_range_succ]
+
+theorem sumN_congr (n : ℕ) (f g : ℕ → K) (h : ∀ i < n, f i = g i) : sumN n f = sumN n g := by
+  rw [sumN_eq_sum, sumN_eq_sum]
+  exact Finset.sum_congr rfl fun i hi => h i (Finset.mem_range.mp hi)
+
+theorem sumN_mul (n : ℕ) (f : ℕ → K) (c : K) : sumN n (fun i => f i * c) = sumN n f * c := by
+  rw [sumN_eq_sum, sumN_eq_sum, Finset.sum_mul]
+
+theorem sumN_add (n : ℕ) (f g : ℕ → K) : sumN n (fun i => f i + g i) = sumN n f + sumN n g := by
+  rw [sumN_eq_sum, sumN_eq_sum, sumN_eq_sum, Finset.sum_add_distrib]
+
+theorem sumN_comm (n m : ℕ) (f : ℕ → ℕ → K) :
+    sumN n (fun i => sumN m (fun j => f i j)) = sumN m (fun j => sumN n (fun i => f i j)) := by
+  simp only [sumN_eq_sum]
+  exact Finset.sum_comm
+
+/-- telescoping sum -/
+theorem sumN_telescope (n : ℕ) (F : ℕ → K) : sumN n (fun i => F (i + 1) - F i) = F n - F 0 := by
+  rw [sumN_eq_sum, Finset.sum_range_sub]
+
+/-- the measure primitive of an axis: the exact measure of the part `[a, b]` of the axis (with the
+full range of the symmetric angles) is `prim b - prim a`.  Length for Cartesian axes and `z`,
+`pi r^2` for polar and cylindrical `r`, `4/3 pi r^3` for spherical `r`. -/
+def prim (pi : K) (c : GridClass) (ax : ℕ) (x : K) : K :=
+  match c with
+  | .unit | .cartesian => x
+  | .polar => pi * x ^ 2
+  | .spherical => 4 / 3 * pi * x ^ 3
+  | .cylindrical => if ax = 0 then pi * x ^ 2 else x
+
+/-- exact measure of an axis between its bounds -/
+def axisMeasure (pi : K) (c : GridClass) (ax : ℕ) (a : Axis K) : K := prim pi c ax a.hi - prim pi c ax a.lo
+
+/-- well-formed axis: at least one cell, `lo < hi`; a `UnitGrid` axis is `(0, N)` -/
+def Axis.WF (c : GridClass) (a : Axis K) : Prop :=
+  a.n ≠ 0 ∧ a.lo < a.hi ∧ (c = .unit → a.lo = 0 ∧ a.hi = (a.n : K))
+
+/-- **C12** `2 pi dr r_i = pi ((r_i + dr/2)^2 - (r_i - dr/2)^2)`: the cylindrical formula is the
+exact annulus area -/
+theorem cyl_volume_identity (pi r dr : K) :
+    2 * pi * dr * r = pi * ((r + dr / 2) ^ 2 - (r - dr / 2) ^ 2) := by ring
+
+/-- **C12** every entry of `cell_volume_data` is the exact measure of its cell
+`[lo + i dx, lo + (i+1) dx]` in the grid's coordinate system, for every grid class -/
+theorem cell_volumes_exact (pi : K) (g : Grid K) (ax : ℕ) (a : Axis K) (i : ℕ) (h : a.WF g.cls) :
+    g.volFactor pi ax a i
+      = prim pi g.cls ax (face a.lo a.hi a.n (i + 1)) - prim pi g.cls ax (face a.lo a.hi a.n i) := by
+  obtain ⟨hn, _, hu⟩ := h
+  have hN : (a.n : K) ≠ 0 := Nat.cast_ne_zero.mpr hn
+  unfold Grid.volFactor prim
+  cases hc : g.cls <;> simp only
+  · -- unit
+    obtain ⟨h0, h1⟩ := hu hc
+    simp only [Grid.dxOf, hc, unitDx, face, dx, h0, h1]
+    push_cast; field_simp; ring
+  · simp only [Grid.dxOf, hc, face]; push_cast; ring
+  · rw [cellHi_eq_face, cellLo_eq_face]; simp only [ballVolume]; ring
+  · rw [cellHi_eq_face, cellLo_eq_face]; simp only [ballVolume]; push_cast; ring
+  · split_ifs with h0
+    · simp only [face, centre]; rw [half_eq]; push_cast; ring
+    · simp only [face]; push_cast; ring
+
+/-- **C12** the volume factors of one axis sum to the exact measure of the axis (telescoping; any
+`N`, any inner radius) -/
+theorem axis_volumes_sum (pi : K) (g : Grid K) (ax : ℕ) (a : Axis K) (h : a.WF g.cls) :
+    sumN a.n (g.volFactor pi ax a) = axisMeasure pi g.cls ax a := by
+  have e : ∀ i, g.volFactor pi ax a i
+      = (fun j => prim pi g.cls ax (face a.lo a.hi a.n j)) (i + 1)
+        - (fun j => prim pi g.cls ax (face a.lo a.hi a.n j)) i :=
+    fun i => cell_volumes_exact pi g ax a i h
+  rw [sumN_congr _ _ _ (fun i _ => e i)]
+  refine (sumN_telescope a.n (fun j => prim pi g.cls ax (face a.lo a.hi a.n j))).trans ?_
+  simp only [face_zero, face_last _ _ _ h.1, axisMeasure]
+
+/-- product of the measures of the selected axes of an abstract axis list -/
+def selMeasure : List (AxisVol K) → K
+  | [] => 1
+  | a :: rest => (if a.sel then sumN a.n a.vol else 1) * selMeasure rest
+
+/-- integrating a constant over the selected axes gives the constant times their measures,
+whatever the retained multi-index -/
+theorem integrate_const (avs : List (AxisVol K)) (c : K) (ret : List ℕ) :
+    integrate avs (fun _ => c) ret = selMeasure avs * c := by
+  induction avs generalizing ret with
+  | nil => simp [integrate, selMeasure]
+  | cons a rest ih =>
+    unfold integrate selMeasure
+    split_ifs with hs
+    · simp only [ih]
+      rw [show (fun i => a.vol i * (selMeasure rest * c)) = fun i => a.vol i * (selMeasure rest * c) from rfl,
+        sumN_mul]
+      ring
+    · rw [ih]; ring
+
+/-- product of the exact measures of the selected axes of a grid (`enumerate`d from `k`) -/
+def selMeasureFrom (pi : K) (c : GridClass) : ℕ → List (Axis K) → List Bool → K
+  | k, a :: as, s :: ss => (if s then axisMeasure pi c k a else 1) * selMeasureFrom pi c (k + 1) as ss
+  | _, _, _ => 1
+
+/-- `axisVols` written as a recursion over the axes (position counted from `k`) -/
+def axisVolsFrom (pi : K) (g : Grid K) : ℕ → List (Axis K) → List Bool → List (AxisVol K)
+  | k, a :: as, s :: ss => ⟨a.n, g.volFactor pi k a, s⟩ :: axisVolsFrom pi g (k + 1) as ss
+  | _, _, _ => []
+
+theorem axisVols_eq_from_aux (pi : K) (g : Grid K) (k : ℕ) (as : List (Axis K)) (ss : List Bool) :
+    (enumFrom k as).zipWith (fun (p : ℕ × Axis K) s => (⟨p.2.n, g.volFactor pi p.1 p.2, s⟩ : AxisVol K)) ss
+      = axisVolsFrom pi g k as ss := by
+  induction as generalizing k ss with
+  | nil => cases ss <;> simp [enumFrom, axisVolsFrom]
+  | cons a as ih =>
+    cases ss with
+    | nil => simp [enumFrom, axisVolsFrom]
+    | cons s ss => simp [enumFrom, axisVolsFrom, ih]
+
+theorem axisVols_eq_from (pi : K) (g : Grid K) (sel : List Bool) :
+    g.axisVols pi sel = axisVolsFrom pi g 0 g.axes sel :=
+  axisVols_eq_from_aux pi g 0 g.axes sel
+
+theorem selMeasure_axisVolsFrom (pi : K) (g : Grid K) (k : ℕ) (as : List (Axis K)) (ss : List Bool)
+    (h : ∀ a ∈ as, a.WF g.cls) :
+    selMeasure (axisVolsFrom pi g k as ss) = selMeasureFrom pi g.cls k as ss := by
+  induction as generalizing k ss with
+  | nil => cases ss <;> simp [axisVolsFrom, selMeasure, selMeasureFrom]
+  | cons a as ih =>
+    cases ss with
+    | nil => simp [axisVolsFrom, selMeasure, selMeasureFrom]
+    | cons s ss =>
+      simp only [axisVolsFrom, selMeasure, selMeasureFrom]
+      rw [ih (k + 1) ss (fun b hb => h b (List.mem_cons_of_mem _ hb)),
+        axis_volumes_sum pi g k a (h a List.mem_cons_self)]
+
+/-- well-formed grid: every axis is well formed and the class has its number of axes -/
+def Grid.WF (g : Grid K) : Prop :=
+  (∀ a ∈ g.axes, a.WF g.cls) ∧
+    (match g.cls with
+     | .polar | .spherical => g.axes.length = 1 ∧ ∀ a ∈ g.axes, 0 ≤ a.lo
+     | .cylindrical => g.axes.length = 2 ∧ ∀ a ∈ g.axes.head?, 0 ≤ a.lo
+     | _ => True)
+
+/-- **C12** integrating the constant 1 over any subset of the axes (`sel`) returns the product of
+the exact measures of the selected axes, at every retained multi-index; all axes selected gives
+the measure of the whole grid -/
+theorem integrate_one_eq_measure (pi : K) (g : Grid K) (sel : List Bool) (ret : List ℕ)
+    (h : ∀ a ∈ g.axes, a.WF g.cls) :
+    g.integrateSel pi sel (fun _ => 1) ret = selMeasureFrom pi g.cls 0 g.axes sel := by
+  unfold Grid.integrateSel
+  rw [integrate_const, axisVols_eq_from, selMeasure_axisVolsFrom pi g 0 g.axes sel h, mul_one]
+
+/-- sum of an array over all multi-indices of a shape -/
+def sumIdx : List ℕ → (List ℕ → K) → K
+  | [], f => f []
+  | n :: ns, f => sumN n (fun i => sumIdx ns (fun idx => f (i :: idx)))
+
+theorem sumIdx_mul_left (ns : List ℕ) (c : K) (f : List ℕ → K) :
+    c * sumIdx ns f = sumIdx ns (fun idx => c * f idx) := by
+  induction ns generalizing f with
+  | nil => simp [sumIdx]
+  | cons n ns ih =>
+    simp only [sumIdx, sumN_eq_sum, Finset.mul_sum]
+    exact Finset.sum_congr rfl fun i _ => ih _
+
+/-- `integrate` over all axes is literally `(data * cell_volumes).sum()`: the sum over all cells of
+the product of the per-axis factors times the data -/
+theorem integrate_all_eq_sumIdx (avs : List (AxisVol K)) (hall : ∀ a ∈ avs, a.sel = true)
+    (data : List ℕ → K) (ret : List ℕ) :
+    integrate avs data ret = sumIdx (avs.map (·.n)) (fun idx => prodAt avs idx * data idx) := by
+  induction avs generalizing data ret with
+  | nil => simp [integrate, sumIdx, prodAt]
+  | cons a rest ih =>
+    have ha : a.sel = true := hall a List.mem_cons_self
+    have hr : ∀ b ∈ rest, b.sel = true := fun b hb => hall b (List.mem_cons_of_mem _ hb)
+    simp only [integrate, ha, if_true, List.map_cons, sumIdx]
+    refine sumN_congr _ _ _ fun i _ => ?_
+    rw [ih hr, sumIdx_mul_left]
+    simp only [prodAt, List.headD_cons, List.tail_cons, mul_assoc]
+
+theorem selMeasureFrom_cart (pi : K) (c : GridClass) (hc : c = .unit ∨ c = .cartesian) (k : ℕ)
+    (as : List (Axis K)) :
+    selMeasureFrom pi c k as (as.map fun _ => true)
+      = as.foldr (fun a acc => (a.hi - a.lo) * acc) 1 := by
+  induction as generalizing k with
+  | nil => simp [selMeasureFrom]
+  | cons a as ih =>
+    simp only [List.map_cons, selMeasureFrom, if_true, List.foldr_cons, ih]
+    rcases hc with rfl | rfl <;> simp [axisMeasure, prim]
+
+/-- `grid.volume` (the closed formula of every class) is the product of the exact measures of the
+axes -/
+theorem volume_eq_measure (pi : K) (g : Grid K) (h : g.WF) :
+    g.volume pi = selMeasureFrom pi g.cls 0 g.axes (g.axes.map fun _ => true) := by
+  obtain ⟨_, hc⟩ := h
+  unfold Grid.volume
+  rcases g with ⟨cls, axes⟩
+  cases cls
+  · simp only [Nat.cast_one]; exact (selMeasureFrom_cart pi _ (Or.inl rfl) 0 axes).symm
+  · simp only [Nat.cast_one]; exact (selMeasureFrom_cart pi _ (Or.inr rfl) 0 axes).symm
+  · simp only at hc
+    obtain ⟨hl, h0⟩ := hc
+    match axes, hl with
+    | [a], _ =>
+      have ha : 0 ≤ a.lo := h0 a List.mem_cons_self
+      simp only [Nat.cast_zero, List.map_cons, List.map_nil, selMeasureFrom, if_true, axisMeasure, prim,
+        ballVolume, mul_one]
+      split_ifs with hp
+      · ring
+      · have : a.lo = 0 := le_antisymm (not_lt.mp hp) ha
+        rw [this]; ring
+  · simp only at hc
+    obtain ⟨hl, h0⟩ := hc
+    match axes, hl with
+    | [a], _ =>
+      have ha : 0 ≤ a.lo := h0 a List.mem_cons_self
+      simp only [Nat.cast_zero, List.map_cons, List.map_nil, selMeasureFrom, if_true, axisMeasure, prim,
+        ballVolume, mul_one]
+      push_cast
+      split_ifs with hp
+      · ring
+      · have : a.lo = 0 := le_antisymm (not_lt.mp hp) ha
+        rw [this]; ring
+  · simp only at hc
+    obtain ⟨hl, _⟩ := hc
+    match axes, hl with
+    | [r, z], _ =>
+      simp only [List.map_cons, List.map_nil, selMeasureFrom, if_true, axisMeasure, prim, mul_one]
+      simp; ring
+
+theorem axisVolsFrom_all_sel (pi : K) (g : Grid K) (k : ℕ) (as : List (Axis K)) :
+    ∀ a ∈ axisVolsFrom pi g k as (as.map fun _ => true), a.sel = true := by
+  induction as generalizing k with
+  | nil => simp [axisVolsFrom]
+  | cons b bs ih =>
+    intro a ha
+    simp only [List.map_cons, axisVolsFrom, List.mem_cons] at ha
+    rcases ha with rfl | ha
+    · rfl
+    · exact ih (k + 1) a ha
+
+theorem axisVolsFrom_map_n (pi : K) (g : Grid K) (k : ℕ) (as : List (Axis K)) :
+    (axisVolsFrom pi g k as (as.map fun _ => true)).map (·.n) = as.map (·.n) := by
+  induction as generalizing k with
+  | nil => simp [axisVolsFrom]
+  | cons b bs ih => simp only [List.map_cons, axisVolsFrom, ih]
+
+/-- **C12** the cell volumes of every grid class sum to the grid volume: `integrate(1)`,
+i.e. `cell_volumes.sum()`, equals the closed formula `grid.volume`, for any number of cells and
+any inner radius -/
+theorem cell_volumes_sum_eq_volume (pi : K) (g : Grid K) (h : g.WF) :
+    g.integrateAll pi (fun _ => 1) = g.volume pi ∧
+      sumIdx g.shape (g.cellVolume pi) = g.volume pi := by
+  have h1 : g.integrateAll pi (fun _ => 1) = g.volume pi := by
+    rw [volume_eq_measure pi g h]
+    exact integrate_one_eq_measure pi g _ [] h.1
+  refine ⟨h1, ?_⟩
+  rw [← h1]
+  unfold Grid.integrateAll Grid.cellVolume
+  have hall : ∀ a ∈ g.axisVolsAll pi, a.sel = true := by
+    unfold Grid.axisVolsAll; rw [axisVols_eq_from]; exact axisVolsFrom_all_sel pi g 0 g.axes
+  rw [integrate_all_eq_sumIdx _ hall]
+  have hshape : (g.axisVolsAll pi).map (·.n) = g.shape := by
+    unfold Grid.axisVolsAll Grid.shape; rw [axisVols_eq_from]; exact axisVolsFrom_map_n pi g 0 g.axes
+  rw [hshape]
+  simp only [mul_one]
+
+/-! #### projection (Fubini for the weighted sums) -/
+
+theorem integrate_linear (avs : List (AxisVol K)) (n : ℕ) (c : ℕ → K) (F : ℕ → List ℕ → K)
+    (ret : List ℕ) :
+    integrate avs (fun idx => sumN n (fun i => c i * F i idx)) ret
+      = sumN n (fun i => c i * integrate avs (F i) ret) := by
+  induction avs generalizing F ret with
+  | nil => simp [integrate]
+  | cons a rest ih =>
+    unfold integrate
+    split_ifs with hs
+    · simp only [ih]
+      simp only [sumN_eq_sum, Finset.mul_sum]
+      rw [Finset.sum_comm]
+      refine Finset.sum_congr rfl fun i _ => Finset.sum_congr rfl fun j _ => ?_
+      ring
+    · exact ih _ _
+
+/-- the axes that survive a projection, as the sliced grid integrates over them -/
+def retainedAll (avs : List (AxisVol K)) : List (AxisVol K) :=
+  (avs.filter fun a => !a.sel).map fun a => { a with sel := true }
+
+/-- the same axes, all selected -/
+def allSel (avs : List (AxisVol K)) : List (AxisVol K) := avs.map fun a => { a with sel := true }
+
+/-- integrating the projection over the retained axes gives the integral over all axes -/
+theorem integrate_fubini (avs : List (AxisVol K)) (data : List ℕ → K) :
+    integrate (retainedAll avs) (fun ret => integrate avs data ret) []
+      = integrate (allSel avs) data [] := by
+  induction avs generalizing data with
+  | nil => simp [retainedAll, allSel, integrate]
+  | cons a rest ih =>
+    by_cases hs : a.sel = true
+    · have e1 : retainedAll (a :: rest) = retainedAll rest := by simp [retainedAll, hs]
+      rw [e1]
+      simp only [integrate, hs, if_true, allSel, List.map_cons]
+      rw [integrate_linear]
+      refine sumN_congr _ _ _ fun i _ => ?_
+      rw [ih]; rfl
+    · have hs' : a.sel = false := by simpa using hs
+      have e1 : retainedAll (a :: rest) = { a with sel := true } :: retainedAll rest := by
+        simp [retainedAll, hs']
+      rw [e1]
+      simp only [integrate, hs', if_true, allSel, List.map_cons, Bool.false_eq_true, if_false,
+        List.headD_cons, List.tail_cons]
+      refine sumN_congr _ _ _ fun i _ => ?_
+      rw [ih]; rfl
+
+theorem allSel_axisVolsFrom (pi : K) (g : Grid K) (k : ℕ) (as : List (Axis K)) (ss : List Bool)
+    (hl : ss.length = as.length) :
+    allSel (axisVolsFrom pi g k as ss) = axisVolsFrom pi g k as (as.map fun _ => true) := by
+  induction as generalizing k ss with
+  | nil => cases ss <;> simp [axisVolsFrom, allSel]
+  | cons a as ih =>
+    cases ss with
+    | nil => simp at hl
+    | cons s ss =>
+      simp only [axisVolsFrom, allSel, List.map_cons, List.cons.injEq, true_and]
+      exact ih (k + 1) ss (by simpa using hl)
+
+/-- for Cartesian classes the retained axes are exactly the axes of the sliced grid -/
+theorem retained_cart (pi : K) (g g' : Grid K) (hc : g.cls = .unit ∨ g.cls = .cartesian)
+    (hc' : g'.cls = g.cls) (k k' : ℕ) (as : List (Axis K)) (rem : List Bool)
+    (hl : rem.length = as.length) :
+    retainedAll (axisVolsFrom pi g k as rem)
+      = axisVolsFrom pi g' k' (keep as (rem.map (!·))) ((keep as (rem.map (!·))).map fun _ => true) := by
+  have hv : ∀ j j' a, g.volFactor pi j a = g'.volFactor pi j' a := by
+    intro j j' a
+    funext i
+    unfold Grid.volFactor Grid.dxOf
+    rw [hc']
+    rcases hc with h | h <;> simp [h]
+  induction as generalizing k k' rem with
+  | nil => cases rem <;> simp [axisVolsFrom, retainedAll, keep]
+  | cons a as ih =>
+    cases rem with
+    | nil => simp at hl
+    | cons s ss =>
+      have hl' : ss.length = as.length := by simpa using hl
+      cases s
+      · simp only [axisVolsFrom, retainedAll, List.filter_cons, Bool.not_false, if_true, List.map_cons, keep,
+          Bool.not_false]
+        have := ih (k + 1) (k' + 1) ss hl'
+        simp only [retainedAll] at this
+        rw [this, hv k k' a]
+      · simp only [axisVolsFrom, retainedAll, List.filter_cons, Bool.not_true, Bool.false_eq_true, if_false,
+          List.map_cons, keep]
+        have := ih (k + 1) k' ss hl'
+        simp only [retainedAll] at this
+        exact this
+
+/-- **C12** projecting a field (integrating out the axes flagged in `remove`) preserves its
+integral: the integral of the projected field over the sliced grid equals the integral of the
+field over the grid.  Cartesian grids of any dimension and any axis subset; cylindrical grids
+projected onto `r` (a polar grid: uses `cyl_volume_identity`) or onto `z`. -/
+theorem project_preserves_integral (pi : K) (g : Grid K) (remove : List Bool) (data : List ℕ → K)
+    (hl : remove.length = g.axes.length)
+    (hc : g.cls = .unit ∨ g.cls = .cartesian ∨
+      (g.cls = .cylindrical ∧ g.axes.length = 2 ∧ (remove = [false, true] ∨ remove = [true, false]))) :
+    (g.slice (remove.map (!·))).integrateAll pi (g.project pi remove data) = g.integrateAll pi data := by
+  unfold Grid.integrateAll Grid.project Grid.integrateSel
+  have hfull : g.axisVolsAll pi = allSel (g.axisVols pi remove) := by
+    unfold Grid.axisVolsAll
+    rw [axisVols_eq_from, axisVols_eq_from, allSel_axisVolsFrom pi g 0 g.axes remove hl]
+  rw [hfull, ← integrate_fubini]
+  have hret : (g.slice (remove.map (!·))).axisVolsAll pi = retainedAll (g.axisVols pi remove) := by
+    unfold Grid.axisVolsAll
+    rw [axisVols_eq_from, axisVols_eq_from]
+    rcases hc with hc | hc | ⟨hc, hl2, hr⟩
+    · have hs : g.slice (remove.map (!·)) = ⟨g.cls, keep g.axes (remove.map (!·))⟩ := by
+        unfold Grid.slice; rw [hc]
+      rw [retained_cart pi g (g.slice (remove.map (!·))) (Or.inl hc) (by rw [hs]) 0 0 g.axes remove hl, hs]
+    · have hs : g.slice (remove.map (!·)) = ⟨g.cls, keep g.axes (remove.map (!·))⟩ := by
+        unfold Grid.slice; rw [hc]
+      rw [retained_cart pi g (g.slice (remove.map (!·))) (Or.inr hc) (by rw [hs]) 0 0 g.axes remove hl, hs]
+    · rcases g with ⟨cls, axes⟩
+      simp only at hc hl2
+      subst hc
+      match axes, hl2 with
+      | [r, z], _ =>
+        rcases hr with rfl | rfl
+        · -- remove z, keep r: polar grid
+          simp only [Grid.slice, List.map_cons, List.map_nil, Bool.not_false, Bool.not_true, keep, if_true,
+            axisVolsFrom, retainedAll, List.filter_cons, List.filter_nil, Bool.false_eq_true, if_false,
+            List.cons.injEq, and_true]
+          congr 1
+          funext i
+          simp only [Grid.volFactor, ballVolume, cellHi, cellLo, if_true]
+          rw [half_eq]; push_cast; ring
+        · -- remove r, keep z: Cartesian grid
+          simp only [Grid.slice, List.map_cons, List.map_nil, Bool.not_false, Bool.not_true, keep, if_true,
+            axisVolsFrom, retainedAll, List.filter_cons, List.filter_nil, Bool.false_eq_true, if_false,
+            List.cons.injEq, and_true]
+          congr 1
+  rw [hret]
 
 end
 end PdeVerif.Grids
